@@ -367,6 +367,8 @@ pub fn format_function_args(
     shape: Shape,
     call_next_node: FunctionCallNextNode,
 ) -> FunctionArgs {
+    #[cfg(feature = "verif")]
+    crate::verif::tick();
     match function_args {
         FunctionArgs::Parentheses {
             parentheses,
